@@ -1,92 +1,64 @@
-(** Calendar facts used by C13 (month unit) and C15, proved for the bounded range of month ids
-    0..1571 (1970-01 .. 2100-12) by kernel computation and lifted to forall-statements. *)
+(** Calendar facts used by C13 (month unit) and C15, for EVERY date of Python's range (year >= 1):
+    month ids a with MINID <= a (MINID = -23628 = month id of 0001-01).  They are instances of the
+    unbounded, axiom-free facts of Proofs/CalendarP.v (Gregorian 400-year periodicity + kernel
+    evaluation of one cycle).
+    Tie to the source: Calendar.addm / lag_months equal bermuda's float-based add_months /
+    dev_lag_months only where the C12 bridge theorems say so (month-aligned dates with results in
+    1970-2100; before 1970 see known finding F10). *)
 From Coq Require Import ZArith List Bool Lia.
-From Bermuda Require Import Lib.Calendar.
+From Bermuda Require Import Lib.Calendar Proofs.CalendarP.
 Import ListNotations.
 Local Open Scope Z_scope.
 
-Definition MAXID : Z := 1571.
-Definition ids : list Z := map Z.of_nat (seq 0 1572).
-
-Lemma in_ids a : 0 <= a <= MAXID -> In a ids.
+Lemma month_id_end a : MINID <= a -> month_id (month_end a) = a.
+Proof. apply month_id_month_end. Qed.
+Lemma month_id_start a : MINID <= a -> month_id (month_start a) = a.
+Proof. apply month_id_month_start. Qed.
+Lemma month_end_is_end a : MINID <= a -> is_month_end (month_end a) = true.
+Proof. apply is_month_end_month_end. Qed.
+Lemma month_start_is_start a : MINID <= a -> is_month_start (month_start a) = true.
+Proof. apply is_month_start_month_start. Qed.
+(* the day before a month start is the previous month's end (needs that month to exist: MINID < a) *)
+Lemma month_id_before_start a : MINID < a -> month_id (month_start a - 1) = a - 1.
 Proof.
-  intros H. unfold ids, MAXID in *. apply in_map_iff. exists (Z.to_nat a). split; [lia|].
-  apply in_seq. lia.
+  intros H. pose proof (month_end_succ (a - 1)) as E. replace (a - 1 + 1) with a in E by lia.
+  replace (month_start a - 1) with (month_end (a - 1)) by lia. apply month_id_month_end. lia.
 Qed.
 
-Lemma all_ids (f : Z -> bool) : forallb f ids = true -> forall a, 0 <= a <= MAXID -> f a = true.
-Proof. intros H a Ha. rewrite forallb_forall in H. apply H, in_ids, Ha. Qed.
-
-Definition id_facts (a : Z) : bool :=
-  (month_id (month_end a) =? a) && (month_id (month_start a) =? a)
-  && is_month_end (month_end a) && is_month_start (month_start a)
-  && (month_start a <=? month_end a)
-  && (month_end a + 1 =? month_start (a + 1))
-  && (month_id (month_start a - 1) =? a - 1)
-  && (month_end (a - 1) <? month_end a).
-
-Lemma id_facts_all : forallb id_facts ids = true.
-Proof. vm_compute. reflexivity. Qed.
-
-Section Facts.
-  Variable a : Z.
-  Hypothesis Ha : 0 <= a <= MAXID.
-  Let F := all_ids id_facts id_facts_all a Ha.
-
-  Lemma month_id_end : month_id (month_end a) = a.
-  Proof. pose proof F as H. unfold id_facts in H. rewrite !andb_true_iff in H. lia. Qed.
-  Lemma month_id_start : month_id (month_start a) = a.
-  Proof. pose proof F as H. unfold id_facts in H. rewrite !andb_true_iff in H. lia. Qed.
-  Lemma month_end_is_end : is_month_end (month_end a) = true.
-  Proof. pose proof F as H. unfold id_facts in H. rewrite !andb_true_iff in H. tauto. Qed.
-  Lemma month_start_is_start : is_month_start (month_start a) = true.
-  Proof. pose proof F as H. unfold id_facts in H. rewrite !andb_true_iff in H. tauto. Qed.
-  Lemma month_start_le_end : month_start a <= month_end a.
-  Proof. pose proof F as H. unfold id_facts in H. rewrite !andb_true_iff in H. lia. Qed.
-  Lemma month_id_before_start : month_id (month_start a - 1) = a - 1.
-  Proof. pose proof F as H. unfold id_facts in H. rewrite !andb_true_iff in H. lia. Qed.
-  Lemma month_end_step : month_end (a - 1) < month_end a.
-  Proof. pose proof F as H. unfold id_facts in H. rewrite !andb_true_iff in H. lia. Qed.
-End Facts.
-
-(* month ends are strictly increasing in the month id *)
-Lemma month_end_mono a b : 0 <= a -> a < b -> b <= MAXID -> month_end a < month_end b.
+(* month ends are strictly increasing in the month id (no bound needed) *)
+Lemma month_end_mono a b : a < b -> month_end a < month_end b.
 Proof.
-  intros H0 Hab Hb. remember (Z.to_nat (b - a - 1)) as n eqn:En.
-  revert b Hab Hb En. induction n as [|n IH]; intros b Hab Hb En.
-  - assert (a = b - 1) as -> by lia. apply month_end_step. unfold MAXID in *. lia.
-  - assert (month_end a < month_end (b - 1)) by (apply IH; lia).
-    assert (month_end (b - 1) < month_end b) by (apply month_end_step; unfold MAXID in *; lia). lia.
+  intros H. pose proof (month_end_succ a). pose proof (month_end_succ b).
+  assert (month_start (a + 1) < month_start (b + 1)) by (apply month_start_strict_mono; lia). lia.
 Qed.
-Lemma month_end_mono_le a b : 0 <= a -> a <= b -> b <= MAXID -> month_end a <= month_end b.
+Lemma month_end_mono_le a b : a <= b -> month_end a <= month_end b.
 Proof.
-  intros H0 Hab Hb. destruct (Z.eq_dec a b) as [->|Hne]; [lia|].
+  intros H. destruct (Z.eq_dec a b) as [->|Hne]; [lia|].
   assert (month_end a < month_end b) by (apply month_end_mono; lia). lia.
 Qed.
-Lemma month_end_inj_lt a b : 0 <= a <= MAXID -> 0 <= b <= MAXID -> month_end a < month_end b -> a < b.
+Lemma month_end_inj_lt a b : month_end a < month_end b -> a < b.
 Proof.
-  intros Ha Hb H. destruct (Z_lt_le_dec a b) as [?|Hge]; [assumption|].
+  intros H. destruct (Z_lt_le_dec a b) as [?|Hge]; [assumption|].
   assert (month_end b <= month_end a) by (apply month_end_mono_le; lia). lia.
 Qed.
 
 (* integer lags and shifts between month ends (the Z-level counterparts of dev_lag_months /
    add_months, tied to the float code by C12) *)
-Lemma lag_months_ends a b : 0 <= a <= MAXID -> 0 <= b <= MAXID ->
-  lag_months (month_end a) (month_end b) = b - a.
-Proof. intros Ha Hb. unfold lag_months. rewrite !month_id_end by assumption. reflexivity. Qed.
+Lemma lag_months_ends a b : MINID <= a -> MINID <= b -> lag_months (month_end a) (month_end b) = b - a.
+Proof. apply lag_months_month_ends. Qed.
 
-Lemma addm_end a k : 0 <= a <= MAXID -> addm (month_end a) k = month_end (a + k).
-Proof.
-  intros Ha. unfold addm. rewrite month_end_is_end, month_id_end by assumption. reflexivity.
-Qed.
+Lemma addm_end a k : MINID <= a -> addm (month_end a) k = month_end (a + k).
+Proof. apply addm_month_end. Qed.
 
-Lemma lag_addm_end a k : 0 <= a <= MAXID -> 0 <= a + k <= MAXID ->
+Lemma lag_addm_end a k : MINID <= a -> MINID <= a + k ->
   lag_months (month_end a) (addm (month_end a) k) = k.
 Proof. intros Ha Hk. rewrite addm_end, lag_months_ends by assumption. lia. Qed.
 
-(* period length in months of a month-aligned period, as is_semi_regular computes it *)
-Lemma plen_month_aligned a b : 0 <= a <= MAXID -> 0 <= b <= MAXID ->
+(* period length in months of a month-aligned period, as is_semi_regular computes it:
+   dev_lag_months(start - 1 day, stop) *)
+Lemma plen_month_aligned a b : MINID < a -> MINID <= b ->
   lag_months (month_start a - 1) (month_end b) = b - a + 1.
 Proof.
-  intros Ha Hb. unfold lag_months. rewrite month_id_end, month_id_before_start by assumption. lia.
+  intros Ha Hb. unfold lag_months. rewrite month_id_end by assumption.
+  rewrite month_id_before_start by assumption. lia.
 Qed.
